@@ -373,6 +373,13 @@ def _h_struct_unpack_from(a, k):
         used('struct.unpack')
         off = concretize(a[2] if len(a) > 2 else k.get('offset', 0))
         size = struct.calcsize(a[0])
+        n = len(a[1].b)
+        if off < 0:
+            if off + n < 0:
+                raise struct.error('offset %d out of range for %d-byte buffer' % (off, n))
+            off += n
+        if off + size > n:
+            raise struct.error('unpack_from requires a buffer of at least %d bytes' % (off + size))
         return symseq.struct_unpack(a[0], a[1].b[off:off + size])
     return NotImplemented
 
@@ -398,6 +405,13 @@ def _bound_c_method(f, selfobj, a, k):
             if isinstance(a[0], SymBytes):
                 used('struct.unpack')
                 off = concretize(a[1] if len(a) > 1 else k.get('offset', 0))
+                n = len(a[0].b)
+                if off < 0:
+                    if off + n < 0:
+                        raise struct.error('offset %d out of range for %d-byte buffer' % (off, n))
+                    off += n
+                if off + selfobj.size > n:
+                    raise struct.error('unpack_from requires a buffer of at least %d bytes' % (off + selfobj.size))
                 return symseq.struct_unpack(selfobj.format, a[0].b[off:off + selfobj.size])
         return NotImplemented
     if ts is bytes or ts is bytearray:
